@@ -117,6 +117,10 @@ def _extreme_helper(ctx) -> None:
 
 _T, _V = "table", "vector"
 MUTANTS = [
+    dict(id="table-taken-for-one-column", module="table", old="			if spec.ndims() == 2:\n", new="			if False:\n", rules=["g.name-resolution"],
+         desc="reverts fix 05ef54f"),
+    dict(id="aggregate-key-names-left-to-right", module="table", old='\t\t\tif col._name is not None and col._name not in kept_names:\n\t\t\t\tkept_names.add(col._name)\n\t\t\t\tkey_name = col._name\n\t\t\telse:\n\t\t\t\t# (an unnamed key gets a name; \'\' is a name like any other)\n\t\t\t\tkey_name = uniquify(col._name if col._name is not None else "key")\n', new='\t\t\tkey_name = uniquify(col._name if col._name is not None else "key")\n',
+         rules=["b.key-columns"], desc="reverts fix 0eb5be7 (the loop; the reservation alone does not keep a key's name)"),
     dict(id="aggregate-stdev-squares-with-pow", module="table",
          old="					variance = sum((v - mean_val) * (v - mean_val) for v in clean) / (n - 1)",
          new="					variance = sum((v - mean_val) ** 2 for v in clean) / (n - 1)", rules=["e.vector-reductions"],
